@@ -2210,6 +2210,137 @@ fn run_locator(opts: &Opts, out: &mut Out) -> &'static str {
 
 
 // =================================================================================================
+// hsync: the real HeadersSyncController::is_timeout (through verif_new / verif_is_timeout / verif_fields)
+// =================================================================================================
+//   hsnew <started_ts> <started_tip_ts> <last_updated_ts> <last_updated_tip_ts> <0|1>  -> <fields>
+//   hsto <now_tip_ts> <now>           -> <none|true|false> <fields>
+
+fn hs_fields(c: &ckb_sync::HeadersSyncController) -> String {
+    let f = c.verif_fields();
+    format!("{} {} {} {} {}", f.0, f.1, f.2, f.3, f.4 as u8)
+}
+
+fn hs_new(out: &mut Out, f: (u64, u64, u64, u64, bool)) -> ckb_sync::HeadersSyncController {
+    let c = ckb_sync::HeadersSyncController::verif_new(f.0, f.1, f.2, f.3, f.4);
+    out.op(&format!("hsnew {} {} {} {} {}", f.0, f.1, f.2, f.3, f.4 as u8), &hs_fields(&c));
+    c
+}
+
+fn hs_to(out: &mut Out, c: &mut ckb_sync::HeadersSyncController, now_tip_ts: u64, now: u64) -> Option<bool> {
+    use ckb_constant::sync::{HEADERS_DOWNLOAD_INSPECT_WINDOW as W, HEADERS_DOWNLOAD_HEADERS_PER_SECOND as RATE, POW_INTERVAL};
+    let before = c.verif_fields();
+    let r = c.verif_is_timeout(now_tip_ts, now);
+    let after = c.verif_fields();
+    // plain statements of the decision (independent of the model):
+    // eviction needs a full inspect window since the last accepted sample, a tip at least one window behind
+    // the clock, a controller that is not close to the end, and a tip that did not outrun the expected progress
+    let spent = now.saturating_sub(before.2);
+    let synced = now_tip_ts.saturating_sub(before.3);
+    let expected = RATE * spent * POW_INTERVAL / 1000;
+    if r == Some(true) && (spent < W || now.saturating_sub(now_tip_ts) < W || before.4 || synced > expected) {
+        out.oracle_fail("hsync-evicted-without-cause", &format!("{before:?} tip={now_tip_ts} now={now}"));
+    }
+    // a quarter of the expected progress is the hard floor
+    if r != Some(true) && !before.4 && now.saturating_sub(now_tip_ts) >= W && spent >= W && synced < expected / 4 {
+        out.oracle_fail("hsync-slow-peer-kept", &format!("{before:?} tip={now_tip_ts} now={now}: {r:?}"));
+    }
+    // None resets the controller to "started now"; the start pair never moves otherwise; the last-updated pair
+    // moves only to (now, tip)
+    match r {
+        None => {
+            if after != (now, now_tip_ts, now, now_tip_ts, false) || !before.4 {
+                out.oracle_fail("hsync-reset", &format!("{before:?} -> {after:?}"));
+            }
+        }
+        Some(_) => {
+            if (after.0, after.1) != (before.0, before.1) || ((after.2, after.3) != (before.2, before.3) && (after.2, after.3) != (now, now_tip_ts)) {
+                out.oracle_fail("hsync-bookkeeping", &format!("{before:?} -> {after:?}"));
+            }
+        }
+    }
+    out.count(match r { None => "hsync-none", Some(true) => "hsync-evict", Some(false) => "hsync-keep" });
+    out.op(&format!("hsto {now_tip_ts} {now}"), &format!("{} {}", match r { None => "none", Some(true) => "true", Some(false) => "false" }, hs_fields(c)));
+    r
+}
+
+fn hsync_case(out: &mut Out, rng: &mut Rng, n_ops: usize) {
+    use ckb_constant::sync::{HEADERS_DOWNLOAD_INSPECT_WINDOW as W, HEADERS_DOWNLOAD_HEADERS_PER_SECOND as RATE, POW_INTERVAL};
+    out.begin_case("hsync controller");
+    // a peer followed over time: the clock advances by steps around the inspect window, the tip timestamp by
+    // amounts around the expected progress, its quarter, and the distance to the clock
+    let mut now: u64 = 1_700_000_000_000 + rng.below(1_000_000);
+    let mut tip: u64 = match rng.below(3) { 0 => now - rng.below(3 * W), 1 => now.saturating_sub(86_400_000 * (1 + rng.below(400))), _ => rng.below(now) };
+    let mut c = hs_new(out, (now, tip, now, tip, rng.chance(1, 6)));
+    let (mut evicts, mut nones) = (0, 0);
+    for _ in 0..n_ops {
+        let f = c.verif_fields();
+        let dt = match rng.below(6) {
+            0 => W - 1 - rng.below(3),
+            1 => W + rng.below(3),
+            2 => rng.below(2 * W),
+            3 => (W + rng.below(W)).saturating_sub(now.saturating_sub(f.2)),
+            _ => rng.below(W / 4) + 1,
+        };
+        now += dt;
+        let spent = now.saturating_sub(f.2);
+        let expected = RATE * spent * POW_INTERVAL / 1000;
+        let expected_start = RATE * now.saturating_sub(f.0) * POW_INTERVAL / 1000;
+        let target = match rng.below(10) {
+            0 => f.3 + expected / 4,
+            1 => (f.3 + expected / 4).saturating_sub(1),
+            2 => f.3 + expected,
+            3 => f.3 + expected + 1,
+            4 => f.1 + expected_start,
+            5 => (f.1 + expected_start).saturating_sub(1),
+            6 => now.saturating_sub(W),
+            7 => now.saturating_sub(W) + 1,
+            8 => now.saturating_sub(RATE * W * POW_INTERVAL / 1000 + rng.below(3)).saturating_sub(0) + 1,
+            _ => tip + rng.below(expected + 1),
+        };
+        // the better tip's timestamp normally does not go back; sometimes it does (another better tip)
+        tip = if rng.chance(1, 12) { target } else { target.max(tip) };
+        match hs_to(out, &mut c, tip, now) {
+            None => nones += 1,
+            Some(true) => {
+                evicts += 1;
+                // an evicted peer's controller is dropped; a new sync starts
+                if rng.chance(1, 2) {
+                    c = hs_new(out, (now, tip, now, tip, false));
+                }
+            }
+            Some(false) => {}
+        }
+    }
+    if evicts > 0 && nones > 0 {
+        out.nontrivial(format!("hsync evicts={evicts} resets={nones} ops={n_ops}"));
+    }
+}
+
+fn hsync_replay(out: &mut Out, ops: &[String]) {
+    let mut c = ckb_sync::HeadersSyncController::verif_new(0, 0, 0, 0, false);
+    for line in ops {
+        let t: Vec<&str> = line.split_whitespace().collect();
+        let n = |i: usize| -> u64 { t[i].parse().unwrap() };
+        match t[0] {
+            "case" => { out.begin_case(&t[2..].join(" ")); }
+            "hsnew" => { c = hs_new(out, (n(1), n(2), n(3), n(4), t[5] == "1")); }
+            "hsto" => { hs_to(out, &mut c, n(1), n(2)); }
+            other => panic!("C17 hsync replay: unknown op {other}"),
+        }
+    }
+}
+
+fn run_hsync(opts: &Opts, out: &mut Out) -> &'static str {
+    let mut rng = Rng::new(opts.seed);
+    let cases = if opts.thorough() { 40_000 } else { 2_000 } * opts.scale as usize;
+    for _ in 0..cases {
+        let n = rng.range(5, 60) as usize;
+        hsync_case(out, &mut rng, n);
+    }
+    "hsync: controller histories with at least one eviction and one reset (distinct by counts)"
+}
+
+// =================================================================================================
 
 pub fn run(opts: &Opts) {
     let mode = opts.extra.first().map(|s| s.as_str()).unwrap_or("");
@@ -2225,6 +2356,7 @@ pub fn run(opts: &Opts) {
                 "inflight" => inflight_replay(&mut out, &ops),
                 "headermap" => headermap_replay(opts, &mut out, &ops),
                 "locator" => {}
+                "hsync" => hsync_replay(&mut out, &ops),
                 _ => panic!("C17: unknown sub-mode {mode}"),
             }
         }
@@ -2237,6 +2369,7 @@ pub fn run(opts: &Opts) {
         "inflight" => run_inflight(opts, &mut out),
         "headermap" => run_headermap(opts, &mut out),
         "locator" => run_locator(opts, &mut out),
+        "hsync" => run_hsync(opts, &mut out),
         _ => {
             eprintln!("C17: sub-mode orphan|skip|inflight|headermap expected");
             std::process::exit(2);
